@@ -7,6 +7,6 @@ for id in $(python3 -c "import json;print(' '.join(c['property_id'] for c in jso
   if [ -n "$B" ]; then out=$(./check $id --tier $TIER --budget $B 2>&1); else out=$(./check $id --tier $TIER 2>&1); fi
   c=$?
   echo "[$c] $(tail -1 <<<"$out")"
-  if [ $c -ne 0 ]; then rc=1; grep -E "^VIOLATION|^violation class|check:" <<<"$out" | head -5; fi
+  if [ $c -ne 0 ]; then rc=1; grep -E "^VIOLATION|^violation class|check:|worker exit|nondeterministic|watchdog" <<<"$out" | cut -c1-400 | head -12; fi
 done
 exit $rc
